@@ -33,3 +33,27 @@ Theorem C16_compare_strict_weak_order :
      cmp_incomp a b -> cmp_incomp b c -> cmp_incomp a c).
 Proof. exact compare_strict_weak_order. Qed.
 Print Assumptions C16_compare_strict_weak_order.
+
+(* ---- the closed forms of the C16 theorems that took the comparator fact as a premise ---- *)
+From Upa Require Import Spec.UrlEncoded Impl.SearchParams Proofs.UrlEncodedProofs Proofs.SearchParamsProofs.
+From Upa Require Properties_C16.
+
+Theorem C16_refine_closed :
+  forall ops u0 l0,
+    params u0 = List.map enc_pair l0 -> wf_list l0 -> cache_sound u0 -> Forall wf_op ops ->
+    params (fold_left impl_step (List.map enc_op ops) u0) = List.map enc_pair (fold_left spec_step ops l0)
+    /\ cache_sound (fold_left impl_step (List.map enc_op ops) u0).
+Proof. exact (Properties_C16.C16_refine C16_compare_lt). Qed.
+Print Assumptions C16_refine_closed.
+
+Theorem C16_sort_stable_closed :
+  forall l, wf_list l ->
+    Impl.SearchParams.stable_sort (List.map enc_pair l) = List.map enc_pair (Spec.UrlEncoded.sp_sort l).
+Proof. exact (Properties_C16.C16_sort_stable C16_compare_lt). Qed.
+Print Assumptions C16_sort_stable_closed.
+
+(* non-vacuity: a concrete history meeting the premises *)
+Example C16_refine_example :
+  let ops := [OAppend [98] [49]; OAppend [97] [50]; OSort; OSet [98] [51]; ODel [97]] in
+  params (fold_left impl_step (List.map enc_op ops) usp_empty) = [([98], [51])].
+Proof. vm_compute. reflexivity. Qed.
